@@ -49,3 +49,4 @@ def run(ctx, rep):
     builtins.rule_live_container_iteration(ctx, rep, "C17-R24")
     builtins.rule_sort_on_a_copy(ctx, rep, "C17-R25")
     optargs.rule_iteration_callbacks(ctx, rep, "C17-R26")
+    builtins.rule_typed_array_sources(ctx, rep, "C17-R27")
